@@ -19,7 +19,9 @@ def none_arm_blocks(bi, pred):
             if s.k == "assign" and s.rv.k == "discr" and blk.term.discr is not None and blk.term.discr.place is not None \
                     and s.lhs.is_local() and s.lhs.local == blk.term.discr.place.local:
                 pty = bi.body.place_ty(s.rv.place) or ""
-                if pty.startswith("std::option::Option<std::sync::Arc<crate::topics::topic::Topic"):
+                # Option<Arc<Topic>> or an Option of a tuple that carries the upgraded topic along with what the detach needs
+                if pty.startswith("std::option::Option<std::sync::Arc<crate::topics::topic::Topic") or \
+                        (pty.startswith("std::option::Option<(") and "std::sync::Arc<crate::topics::topic::Topic" in pty):
                     arms = dict(blk.term.arms)
                     none_bb = arms.get(0, blk.term.otherwise if 1 in arms else None)
                     if none_bb is not None:
@@ -454,6 +456,32 @@ def r11_6(prog, out):
             sd = sl.of(tid, t.discr)
             compares = bool({"Eq", "Ne"} & sd.ops) or any(c.split("::")[-1] in ("eq", "ne", "ptr_eq") for c in sd.calls)
             if ident in sd.fields and compares:
+                checked = True
+    # the decision may be recorded first (a classifier enum / a flag) and acted on later: follow constants along the paths --
+    # every feasible path from the entry to the removal takes the `equal` arm of an identity comparison
+    if not checked and rem:
+        from consumers import const_walk
+        eq_arm = set()
+        for blk in bi.body.blocks:
+            if blk.cleanup or blk.idx not in bi.cfg.reach or blk.term.k != "switch":
+                continue
+            for st in blk.stmts:
+                if st.k == "assign" and st.rv.k == "bin" and st.rv.j["op"] in ("Eq", "Ne") and st.lhs.is_local() \
+                        and blk.term.discr is not None and blk.term.discr.place is not None and blk.term.discr.place.is_local() \
+                        and blk.term.discr.place.local == st.lhs.local:
+                    fs = set()
+                    for op in st.rv.ops:
+                        fs |= sl.of(tid, op).fields
+                    if ident not in fs:
+                        continue
+                    arms = dict(blk.term.arms)
+                    tgt = blk.term.otherwise if st.rv.j["op"] == "Eq" else arms.get(0)
+                    if tgt is not None and len(bi.cfg.pred[tgt]) == 1:
+                        eq_arm.add(tgt)
+        if eq_arm:
+            rem_bbs = {e.bb for e in rem}
+            labels = const_walk(bi, 0, lambda bb: "rem" if bb in rem_bbs else ("eq" if bb in eq_arm else None), max_steps=20000)
+            if "rem" not in labels and "unknown" not in labels and "eq" in labels:
                 checked = True
     key = "detach-identity:%s" % prog.short(tid)
     if checked:
